@@ -316,7 +316,7 @@ def run(ctx):
     ctx.extra["exhaustive_states_of_real_service"] = nstates
 
     # 2. seeded random long histories
-    nrand = ctx.pick(900, 40000)
+    nrand = ctx.pick(900, 15000)
     rnd = []
     for i in range(nrand):
         profile = ("full", "plain", "simple")[i % 3]
@@ -325,7 +325,7 @@ def run(ctx):
 
     # 3. spec -> code: behaviours generated by TLC from the specification are stepped through the real service;
     #    the real observables must be the predicted ones (decided again by TLC in validate()).
-    behs = ctx.simulate("ClientSvcSim", "ClientSvcSim.cfg", num=ctx.pick(50, 2500), depth=14)
+    behs = ctx.simulate("ClientSvcSim", "ClientSvcSim.cfg", num=ctx.pick(50, 800), depth=14)
     sim = []
     for b in behs:
         ops = [[int(x) if isinstance(x, str) and x.isdigit() else x for x in h] for h in b["hist"]]
@@ -348,7 +348,7 @@ def run(ctx):
             drift += 1
         ctx.log("design counterexample, restriction %s dropped: ops %s -> %s" % (x, json.dumps(design_cex[x]["ops"]), rep[x]))
     ctx.extra["design_counterexamples"] = {x: dict(ops=design_cex[x]["ops"], real_code=rep[x]) for x in design_cex}
-    ibehs = ctx.simulate("ClientSvcImplSim", "ClientSvcImplSim.cfg", num=ctx.pick(20, 600), depth=13)
+    ibehs = ctx.simulate("ClientSvcImplSim", "ClientSvcImplSim.cfg", num=ctx.pick(20, 300), depth=13)
     isim = []
     for b in ibehs:
         t = run_history(b["cfg"], b["ops"])
